@@ -906,4 +906,108 @@ theorem sizeCtor_good (n : Nat) (l : Ledger) :
   obtain ⟨v', l', h1, g⟩ := resize_good Rep.nil n l
   exact ⟨v', l', h1, by simpa using g⟩
 
+/-! ### reads -/
+
+theorem contents_ok {v : Vec} {xs : List Val} (h : Rep v xs) : contents v = some xs := by
+  have := readRange_ok h 0 xs.length (by omega)
+  simpa [contents, h.size_eq] using this
+
+theorem vecIdx_ok {v : Vec} {xs : List Val} (h : Rep v xs) {i : Nat} (hi : i < xs.length) :
+    vecIdx v i = some (xs.getD i 0) := by
+  rcases h.cases with ⟨rfl, rfl⟩ | ⟨c, rfl, hc⟩
+  · simp at hi
+  · simp only [vecIdx, vecOf, show ¬ (i ≥ xs.length) by omega, if_false]
+    exact rd_live (by simp; omega) (cell_live hi)
+
+theorem vecAt_ok {v : Vec} {xs : List Val} (h : Rep v xs) (i : Nat) : vecAt v i = some xs[i]? := by
+  by_cases hi : i < xs.length
+  · rcases h.cases with ⟨rfl, rfl⟩ | ⟨c, rfl, hc⟩
+    · simp at hi
+    · simp only [vecAt, vecOf, show ¬ (i ≥ xs.length) by omega, if_false]
+      rw [rd_live (by simp; omega) (cell_live hi)]
+      simp [List.getD_eq_getElem?_getD, List.getElem?_eq_getElem hi]
+  · simp only [vecAt, h.size_eq, show i ≥ xs.length by omega, if_true]
+    rw [List.getElem?_eq_none (by omega)]
+
+theorem eqLoop_ok {a b : Vec} {xs ys : List Val} (ha : Rep a xs) (hb : Rep b ys) (hl : xs.length = ys.length)
+    (i n : Nat) (hin : i + n = xs.length) :
+    eqLoop a b i n = some (decide (xs.drop i = ys.drop i)) := by
+  induction n generalizing i with
+  | zero =>
+    have h1 : xs.drop i = [] := List.drop_eq_nil_of_le (by omega)
+    have h2 : ys.drop i = [] := List.drop_eq_nil_of_le (by omega)
+    simp [eqLoop, h1, h2]
+  | succ n ih =>
+    have hi : i < xs.length := by omega
+    have hi' : i < ys.length := by omega
+    rcases ha.cases with ⟨rfl, rfl⟩ | ⟨c, rfl, hc⟩
+    · simp at hi
+    rcases hb.cases with ⟨rfl, rfl⟩ | ⟨c', rfl, hc'⟩
+    · simp at hi'
+    have := ih (i + 1) (by omega)
+    simp only [vecOf] at this
+    simp only [eqLoop, vecOf, rd_live (show i < (⟨c, cell xs⟩ : Buf).n by simp; omega) (cell_live hi),
+      rd_live (show i < (⟨c', cell ys⟩ : Buf).n by simp; omega) (cell_live hi'), this]
+    have ex : xs.drop i = xs[i] :: xs.drop (i + 1) := List.drop_eq_getElem_cons hi
+    have ey : ys.drop i = ys[i] :: ys.drop (i + 1) := List.drop_eq_getElem_cons hi'
+    simp only [List.getD_eq_getElem?_getD, List.getElem?_eq_getElem hi, List.getElem?_eq_getElem hi', Option.getD_some,
+      ex, ey, List.cons.injEq]
+    by_cases he : xs[i] = ys[i]
+    · simp [he]
+    · simp [he]
+
+theorem vecEq_ok {a b : Vec} {xs ys : List Val} (ha : Rep a xs) (hb : Rep b ys) :
+    vecEq a b = some (decide (xs = ys)) := by
+  unfold vecEq
+  by_cases hl : xs.length = ys.length
+  · have := eqLoop_ok ha hb hl 0 xs.length (by omega)
+    simpa [ha.size_eq, hb.size_eq, hl] using this
+  · have : xs ≠ ys := fun h => hl (by rw [h])
+    simp [ha.size_eq, hb.size_eq, hl, this]
+
+theorem lexLoop_ok {a b : Vec} {xs ys : List Val} (ha : Rep a xs) (hb : Rep b ys)
+    (i n : Nat) (hin : i + n = min xs.length ys.length) :
+    lexLoop a b i n = some (decide (xs.drop i < ys.drop i)) := by
+  induction n generalizing i with
+  | zero =>
+    simp only [lexLoop, ha.size_eq, hb.size_eq]
+    by_cases h1 : i = xs.length
+    · subst h1
+      by_cases h2 : xs.length = ys.length
+      · simp [h2]
+      · have hlt : xs.length < ys.length := by omega
+        have ey : ys.drop xs.length = ys[xs.length] :: ys.drop (xs.length + 1) := List.drop_eq_getElem_cons hlt
+        have hnl : ([] : List Val) < ys.drop xs.length := by rw [ey]; exact List.nil_lt_cons _ _
+        simp [h2, hnl]
+    · have h2 : i = ys.length := by omega
+      subst h2
+      simp [h1]
+  | succ n ih =>
+    have hi : i < xs.length := by omega
+    have hi' : i < ys.length := by omega
+    rcases ha.cases with ⟨rfl, rfl⟩ | ⟨c, rfl, hc⟩
+    · simp at hi
+    rcases hb.cases with ⟨rfl, rfl⟩ | ⟨c', rfl, hc'⟩
+    · simp at hi'
+    have := ih (i + 1) (by omega)
+    simp only [vecOf] at this
+    simp only [lexLoop, vecOf, rd_live (show i < (⟨c, cell xs⟩ : Buf).n by simp; omega) (cell_live hi),
+      rd_live (show i < (⟨c', cell ys⟩ : Buf).n by simp; omega) (cell_live hi'), this]
+    have ex : xs.drop i = xs[i] :: xs.drop (i + 1) := List.drop_eq_getElem_cons hi
+    have ey : ys.drop i = ys[i] :: ys.drop (i + 1) := List.drop_eq_getElem_cons hi'
+    simp only [List.getD_eq_getElem?_getD, List.getElem?_eq_getElem hi, List.getElem?_eq_getElem hi', Option.getD_some,
+      ex, ey, List.cons_lt_cons_iff]
+    by_cases h1 : xs[i] < ys[i]
+    · simp [h1]
+    · by_cases h2 : ys[i] < xs[i]
+      · have h3 : xs[i] ≠ ys[i] := fun h => by rw [h] at h2; exact absurd h2 (Int.lt_irrefl _)
+        simp [h1, h2, h3]
+      · have h3 : xs[i] = ys[i] := Int.le_antisymm (Int.not_lt.mp h2) (Int.not_lt.mp h1)
+        simp [h1, h2, h3]
+
+theorem vecLt_ok {a b : Vec} {xs ys : List Val} (ha : Rep a xs) (hb : Rep b ys) :
+    vecLt a b = some (decide (xs < ys)) := by
+  have := lexLoop_ok ha hb 0 (min xs.length ys.length) (by omega)
+  simpa [vecLt, ha.size_eq, hb.size_eq] using this
+
 end Igris.C02
